@@ -358,3 +358,29 @@ func FuncName(fn *ssa.Function) string {
 	s = strings.ReplaceAll(s, Mod+"/", "")
 	return s
 }
+
+// LoadOne loads a single package pattern of the repository for another GOARCH (files excluded by the host's build
+// constraints, e.g. portable fallbacks of assembly routines) and builds its SSA form.
+func (p *Prog) LoadOne(arch, pattern string) (*ssa.Package, *token.FileSet, error) {
+	fset := token.NewFileSet()
+	cfg := &packages.Config{Mode: packages.LoadAllSyntax, Dir: p.Dir, Fset: fset, Env: env(arch), Overlay: p.Overlay}
+	pkgs, err := packages.Load(cfg, pattern)
+	if err != nil {
+		return nil, nil, err
+	}
+	if len(pkgs) != 1 {
+		return nil, nil, fmt.Errorf("%s: %d packages", pattern, len(pkgs))
+	}
+	var errs []string
+	packages.Visit(pkgs, nil, func(pk *packages.Package) {
+		for _, e := range pk.Errors {
+			errs = append(errs, e.Error())
+		}
+	})
+	if len(errs) > 0 {
+		return nil, nil, fmt.Errorf("type/load errors (GOARCH=%s): %s", arch, strings.Join(errs, "; "))
+	}
+	prog, sp := ssautil.AllPackages(pkgs, ssa.InstantiateGenerics)
+	prog.Build()
+	return sp[0], fset, nil
+}
